@@ -2,7 +2,7 @@
 import ast
 
 from ..program import AnalysisError, U, own_nodes, walk_no_nested
-from ..dataflow import ReachingDefs
+from ..dataflow import ReachingDefs, defs_of_node
 from .common import (need, guards_of, calls_to, all_paths_pass, succs, normal_succs, arg_of, is_param)
 
 PROPERTY = 'C16'
@@ -284,6 +284,22 @@ def check(run):
          construct='persist: normal exit reachable bypassing exit_event')
     R.ob('C16.forever', 'an exit exists', g.exit in g.reachable([g.entry]) and bool(exit_tests),
          'no way out of persist() through the exit event', func=FN, node=f.node, construct='persist: no exit')
+    # the event that is waited on is the caller's whenever one was passed: the parameter is replaced only when it is None
+    # (a truthiness test would discard a caller's event object that is falsy while unset)
+    for d in g.live_nodes():
+        if d is g.entry or 'exit_event' not in defs_of_node(d):
+            continue
+        v = rd.value_of_def(d, 'exit_event')
+        gl = {(t_, p_) for (t_, p_, _) in guards_of(g, d)}
+        okd = ('exit_event is None', True) in gl
+        if not okd and isinstance(v, ast.IfExp):
+            tt = U(v.test)
+            okd = (tt == 'exit_event is None' and U(v.orelse) == 'exit_event') or \
+                  (tt == 'exit_event is not None' and U(v.body) == 'exit_event')
+        R.ob('C16.forever', 'a supplied exit event is never replaced', okd,
+             'exit_event is re-bound by `%s` under %s: an event object passed by the caller that is falsy (while unset) is '
+             'thrown away and persist() waits on a private event nobody can set' % (d.text()[:80], sorted(gl)), func=FN,
+             node=d.ast, construct='exit_event re-bound')
     # a `return` is just another way to reach the function end and is covered by the reachability obligation above
     bad = [n for n in own_nodes(f.node) if isinstance(n, ast.Raise)]
     R.ob('C16.forever', 'no raise', not bad, 'raise statement in persist()',
